@@ -327,6 +327,79 @@ func ruleFuncReg(p *Prog, r *Result) {
 		return
 	}
 	fs := p.staticClosure(fn, 3, nil)
+	// ... or in what the plan builder runs on every statement before anything else (Optimizer.init), evaluation code
+	// excluded: the constant folder reaches the evaluator, whose own lookup is the one that comes too late
+	if oi := p.MethodByName("Optimizer", "init"); oi != nil {
+		isEval := func(c *ssa.Function) bool {
+			n := c.Name()
+			return strings.HasPrefix(n, "Execute") || strings.HasPrefix(n, "exec") || strings.HasPrefix(n, "tryOptimize") || strings.HasPrefix(n, "optimize")
+		}
+		seenF := map[*ssa.Function]bool{}
+		for _, f := range fs {
+			seenF[f] = true
+		}
+		for _, f := range p.staticClosure(oi, 6, isEval) {
+			if f != oi && isEval(f) {
+				continue
+			}
+			if !seenF[f] && f.Name() != "Parse" && !strings.HasPrefix(f.Name(), "parse") {
+				seenF[f] = true
+				fs = append(fs, f)
+			}
+		}
+	}
+	// the look-ups count where a rejection is produced: among the candidate functions, the one (with what it calls
+	// directly, two levels) that builds a syntax error and satisfies most of the three obligations is judged
+	{
+		best, bestScore := []*ssa.Function(nil), -1
+		for _, cand := range fs {
+			cl := p.staticClosure(cand, 2, nil)
+			rejects := false
+			score := 0
+			var hasS, hasA, hasN bool
+			for _, f := range cl {
+				allInstrs(f, func(in ssa.Instruction) {
+					switch x := in.(type) {
+					case *ssa.Call:
+						if g := x.Call.StaticCallee(); g != nil && (g.Name() == "NewSyntaxError" || p.qualName(g) == "fmt.Errorf") {
+							rejects = true
+						}
+					case *ssa.Lookup:
+						if derivesFrom(x.X, func(v ssa.Value) bool { return v == ssa.Value(scalarG) }) {
+							hasS = true
+						}
+						if derivesFrom(x.X, func(v ssa.Value) bool { return v == ssa.Value(aggrG) }) {
+							hasA = true
+						}
+					case *ssa.BinOp:
+						if _, f2, _, ok := loadedField(x.X); ok && f2 == "NumArgs" {
+							hasN = true
+						}
+						if _, f2, _, ok := loadedField(x.Y); ok && f2 == "NumArgs" {
+							hasN = true
+						}
+						if _, isPhi := x.Y.(*ssa.Phi); isPhi {
+							hasN = hasN || true
+						}
+					}
+				})
+			}
+			for _, b := range []bool{hasS, hasA} {
+				if b {
+					score++
+				}
+			}
+			_ = hasN
+			if rejects && score > bestScore {
+				best, bestScore = cl, score
+			}
+		}
+		if best != nil && bestScore == 2 {
+			fs = best
+		} else {
+			fs = p.staticClosure(fn, 3, nil)
+		}
+	}
 	readsGlobal := func(g *ssa.Global) (bool, string) {
 		for _, f := range fs {
 			found := ""
@@ -373,7 +446,21 @@ func ruleFuncReg(p *Prog, r *Result) {
 				}
 				return p.derivesFromField(c.Call.Args[0], "FunctionCallExpr", "Args", traceOpts{ThroughArgs: true})
 			}
-			isNumArgs := func(v ssa.Value) bool {
+			var isNumArgs func(v ssa.Value) bool
+			isNumArgs = func(v ssa.Value) bool {
+				if ph, ok := v.(*ssa.Phi); ok {
+					any := false
+					for _, e := range ph.Edges {
+						if _, isC := e.(*ssa.Const); isC {
+							continue
+						}
+						if _, f, _, ok := loadedField(e); !ok || f != "NumArgs" {
+							return false
+						}
+						any = true
+					}
+					return any
+				}
 				_, f, _, ok := loadedField(v)
 				return ok && f == "NumArgs"
 			}
